@@ -100,6 +100,8 @@ func loadsStoredCell(v ssa.Value, st *ssa.Store) bool {
 
 func init() {
 	register("C05",
+		Rule{ID: "C05.m", Explain: "the derived lengths are the specified ones (the rule of C01.i): the interval the issuer draws e from and the one Verify accepts are both computed from Le = Lstatzk+Lh+Lm+5.",
+			Run: func(P *Program, R *Report) { derivedParametersRule(P, R, "C05.m") }},
 		Rule{ID: "C05.l", Explain: "shared state under signing and verification (the rules of C20.l and C20.n with this property's entry points): no package-level mutable value is used without a lock, and no object handed back to a sync.Pool is a function's result (the representation R that Verify compares would be overwritten by a concurrent signer).",
 			Run: func(P *Program, R *Report) {
 				packageStateRule(P, R, "C05.l", []string{kCLVerify, "gabi.SignMessageBlock", kCLSign, kCLRandomize}, 1)
